@@ -120,6 +120,8 @@ def uniq_model_lines(c):
         vals = " ".join(" ".join(f2h(x) for x in r) for r in rows)
         nc = rows.shape[1]
     lines = [f"uniq {v} f {nc} {vals}".rstrip()]
+    if v == "base":  # the specification: accepted as well, so that a repair of idx / inv keeps this site green
+        lines.append(f"uniq spec f {nc} {vals}".rstrip())
     if "scale" in c:  # dyadic rows: the exact Int path of the model must say the same
         k = c["scale"]
         ints = np.round(rows * 2.0 ** k).astype(int)
@@ -147,6 +149,10 @@ def uniq_model_check(ctx, c, outs):
     if any(o.startswith("!err") for o in outs):
         return f"model answered {outs}"
     m = parse_result(outs[0])
+    spec = None
+    if c["cls"] in BASE:
+        spec = parse_result(outs[1])
+        outs = [outs[0]] + list(outs[2:])
     if len(outs) > 1:
         m2 = parse_result(outs[1])
         if m == "empty" or m2 == "empty":
@@ -156,12 +162,27 @@ def uniq_model_check(ctx, c, outs):
             return f"model float path {outs[0]} disagrees with its exact Int path {outs[1]} on dyadic input"
     res = call_unique(obj, c)
     if m == "empty":  # Rotation.unique on an empty object returns `self.empty()` whatever was requested
-        if isinstance(res, tuple) or res.size != 0:
+        if isinstance(res, tuple):  # the corrected behaviour: the requested tuple with empty index arrays
+            u, idx, inv, serr = unpack(res, c)
+            if serr or u.size or (idx is not None and len(idx)) or (inv is not None and len(inv)):
+                return f"empty input: orix returned {res!r}"
+            return None
+        if res.size != 0:
             return f"model: bare empty object; orix returned {type(res).__name__}"
         return None
     u, idx, inv, serr = unpack(res, c)
     if serr:
         return "structure: " + serr
+    r = compare_unique(c, rows, obj, u, idx, inv, m)
+    if r is not None and spec is not None and spec != m:
+        if compare_unique(c, rows, obj, u, idx, inv, spec) is None:
+            ctx.note("orix agrees with the specification (uniqueSpec) where the code-shaped model differs: "
+                     "a known finding seems repaired")
+            return None
+    return r
+
+
+def compare_unique(c, rows, obj, u, idx, inv, m):
     mrows, midx, minv = m
     if c["cls"] in BASE:
         want = np.array(mrows, dtype=float).reshape(-1, rows.shape[1]) / 1e10
